@@ -22,7 +22,7 @@ def floors(tier):
     k = 1 if tier == "quick" else 8
     return {"calls_judged": 800 * k, "arity:unary_unary": 300 * k, "arity:unary_stream": 10 * k, "arity:stream_unary": 10 * k,
             "arity:stream_stream": 10 * k, "form:dict": 100 * k, "form:omitted": 100 * k, "client:async": 300 * k,
-            "foreign_request": 20 * k, "void": 20 * k, "second_client_calls": 100 * k, "big_reply_calls": 16 * k}
+            "foreign_request": 20 * k, "void": 20 * k, "second_client_calls": 100 * k, "big_reply_calls": 16 * k, "calls_judged_with_debug_logging": 300 * k}
 
 
 def plan(seed, tier):
@@ -133,7 +133,10 @@ def run_case(case):
                 setattr(y, fd.name, val)
                 big = {"index": i, "field": fd.name, "reply": rdm.b64(y.SerializeToString()), "length": len(val)}
                 break
-    script = {"root_pkg": apigen.runner_root(api), "calls": calls, "big": big}
+    # every other case runs with the process's logging at DEBUG (an application that called logging.basicConfig(level=DEBUG)): the
+    # emitted clients then also log each request and reply, and still issue exactly one call each
+    debug_logging = bool(case["seed"] % 2)
+    script = {"root_pkg": apigen.runner_root(api), "calls": calls, "big": big, "debug_logging": debug_logging}
     ev, rc, err = pipeline.run_runner("checks.c03", script, lib, timeout=300)
     if ev is None or "runner_crash" in ev or "library_import_error" in ev:
         return pipeline.runner_failed_result(ev, rc, err, api)
@@ -159,6 +162,8 @@ def run_case(case):
             r = res[kind]
             v = judge(model, call, r, ev["proxy_log"][kind])
             bump("calls_judged")
+            if debug_logging:
+                bump("calls_judged_with_debug_logging")
             bump("arity:" + call["arity"])
             bump("form:" + call["form"])
             bump("client:" + kind)
@@ -253,6 +258,12 @@ def judge(model, call, r, proxy_log):
 def in_runner(script):
     import asyncio
     from vlib import rt
+    if script.get("debug_logging"):
+        import logging
+        logging.getLogger().addHandler(logging.NullHandler())
+        logging.getLogger().setLevel(logging.DEBUG)
+        for noisy in ("grpc", "asyncio", "google.auth"):
+            logging.getLogger(noisy).setLevel(logging.WARNING)
     lib = rt.Lib(script["root_pkg"])
     srv = rt.GrpcServer()
     srv2 = rt.GrpcServer()          # the second client of each service and kind talks to this one
